@@ -290,7 +290,6 @@ func runC09(c *rt.Ctx) {
 		})
 		c.Require("checksum-collision-pairs", 200)
 		c.Require("checksum-collision-pair:fnv1a-32", 5)
-		c.Require("checksum-collision-pair:crc32-ieee", 5)
 	}
 
 	// (b) exhaustive small-alphabet strings under the default configuration
